@@ -1198,6 +1198,30 @@ int EGLPNUM_TYPENAME_ILLlib_addrow (
 	qslp = lp->O;
 	A = &qslp->A;
 
+	/* check all arguments before the first write: a failing call changes nothing
+	 * (no phantom name stays registered, no out-of-range structmap access) */
+	if (sense != 'L' && sense != 'G' && sense != 'E' && sense != 'R')
+	{
+		QSlog("illegal sense %d in EGLPNUM_TYPENAME_ILLlib_addrow", sense);
+		rval = 1;
+		ILL_CLEANUP;
+	}
+	for (i = 0; i < cnt; i++)
+	{
+		if (ind[i] < 0 || ind[i] >= qslp->nstruct)
+		{
+			QSlog("illegal column index %d in EGLPNUM_TYPENAME_ILLlib_addrow", ind[i]);
+			rval = 1;
+			ILL_CLEANUP;
+		}
+	}
+	if (name && ILLsymboltab_contains (&qslp->rowtab, name))
+	{
+		QSlog("row name %s already in use", name);
+		rval = 1;
+		ILL_CLEANUP;
+	}
+
 	if (qslp->rA)
 	{															/* After an addrow call, needs to be updated */
 		EGLPNUM_TYPENAME_ILLlp_rows_clear (qslp->rA);
